@@ -253,3 +253,29 @@ def check_transfer_meaning(ln, decs):
                 if int(d[1]) != scratch or int(d1[1]) != link or int(d1[2]) != scratch:
                     return 'far {} must be auipc x{} / jalr x{}, x{}'.format(ln.name, scratch, link, scratch)
     return None
+
+
+def ask_instr_meaning(batch, lines, lay):
+    """queue `chk32 name ops word` for every literal-operand instruction line emitted as one 32-bit
+    word: the text front end + alias/constant substitution + encoder must produce the word whose
+    specification decoding is what the line names (C01 through the whole pipeline, C11)"""
+    pend = []
+    for i, ln in enumerate(lines, 1):
+        if ln.kind != 'instr' or ln.ops is None:
+            continue
+        b = lay.line_bytes(i)
+        if len(b) != 4:
+            continue
+        ops = ' '.join(('R%d' % v) if k == 'r' else ('I%d' % v) for k, v in ln.ops)
+        pend.append((i, ln, b, batch.ask('chk32 %s %s %d' % (ln.name, ops, int.from_bytes(b, 'little')))))
+    return pend
+
+
+def eval_instr_meaning(batch, pend):
+    bad = []
+    for i, ln, b, q in pend:
+        r = batch.get(q)
+        if r != 'yes' and r != 'no-intent':
+            bad.append(('C01', 'line {} {!r}: emitted {} which the specification decodes as {} - not what the line names ({} {})'.format(
+                i, ln.text.strip(), b.hex(), r, ln.name, [v for _, v in ln.ops])))
+    return bad
